@@ -675,19 +675,24 @@ theorem WCtx.step_lsf (c : WCtx) (out : Outcome) (hw : c.w.WF) :
 def WPc.handles (pc : WPc) (r : WReq) : Prop :=
   pc = .got r ∨ ∃ b, pc = .syncOld b (some r) ∨ pc = .syncNew b (some r)
 
+/-- The step executes a removal of `ids`: a `removeChunks ids` request in hand, or the end of a
+batch (the trailing request's ids, none when the trailing request is not a removal; the removal
+postponed by a failed sync is retried after every batch). -/
+def WPc.removes (pc : WPc) (ids : List Nat) : Prop :=
+  pc = .got (.removeChunks ids) ∨ ∃ b t, (pc = .syncOld b t ∨ pc = .syncNew b t) ∧ ids = tailIds t
+
 /-- What a step may do with `postponed`, and the only ways to enter `unlinking`. -/
 structure RemovalStep (c : WCtx) (out : Outcome) (c' : WCtx) : Prop where
   postponed : c'.w.postponed = c.w.postponed ∨
-    (∃ ids, c.w.pc.handles (.removeChunks ids) ∧ c'.w.lastSyncFailed = true ∧
+    (∃ ids, c.w.pc.removes ids ∧ c'.w.lastSyncFailed = true ∧
       c'.w.postponed = c.w.postponed ++ ids) ∨
-    (∃ ids, c.w.pc.handles (.removeChunks ids) ∧ c'.w.pc = .unlinking (c.w.postponed ++ ids) ∧
+    (∃ ids, c.w.pc.removes ids ∧ c'.w.pc = .unlinking (c.w.postponed ++ ids) ∧
       c'.w.postponed = [])
   enter : ∀ ids, c'.w.pc = .unlinking ids →
     (∃ i, c.w.pc = .unlinking (i :: ids) ∧ out ≠ .eio) ∨
     (∃ ids0, c.w.pc = .got (.removeChunks ids0) ∧ c.w.lastSyncFailed = false ∧
       ids = c.w.postponed ++ ids0) ∨
-    (∃ b ids0, c.w.pc = .syncNew b (some (.removeChunks ids0)) ∧ out ≠ .eio ∧
-      ids = c.w.postponed ++ ids0)
+    (∃ b t, c.w.pc = .syncNew b t ∧ out ≠ .eio ∧ ids = c.w.postponed ++ tailIds t)
 
 theorem RemovalStep.of_frame {c c' : WCtx} {out : Outcome} (hp : c'.w.postponed = c.w.postponed)
     (hpc : ∀ ids, c'.w.pc ≠ .unlinking ids) : RemovalStep c out c' :=
@@ -732,9 +737,9 @@ theorem WCtx.step_removal (c : WCtx) (out : Outcome) (hw : c.w.WF) : RemovalStep
   · intro b t f rest hpc hf ho _
     constructor
     · rcases (c.emit (.sync "w" f.id false)).finishBatch_postponed b t false with
-        h | ⟨ids, hr, _, h⟩ | ⟨ids, hr, hl, _⟩
+        h | ⟨_, h⟩ | ⟨hl, _⟩
       · exact .inl h
-      · exact .inr (.inl ⟨ids, .inr ⟨b, .inl (by rw [hpc, hr])⟩, by simp, h⟩)
+      · exact .inr (.inl ⟨tailIds t, .inr ⟨b, t, .inl hpc, rfl⟩, by simp, h⟩)
       · cases hl
     · intro ids h
       have := ((c.emit (.sync "w" f.id false)).finishBatch_pc b t false).2.2 ids h
@@ -750,9 +755,9 @@ theorem WCtx.step_removal (c : WCtx) (out : Outcome) (hw : c.w.WF) : RemovalStep
   · intro b t f rest hpc hf ho _
     constructor
     · rcases (c.emit (.sync "w" f.id false)).finishBatch_postponed b t false with
-        h | ⟨ids, hr, _, h⟩ | ⟨ids, hr, hl, _⟩
+        h | ⟨_, h⟩ | ⟨hl, _⟩
       · exact .inl h
-      · exact .inr (.inl ⟨ids, .inr ⟨b, .inr (by rw [hpc, hr])⟩, by simp, h⟩)
+      · exact .inr (.inl ⟨tailIds t, .inr ⟨b, t, .inr hpc, rfl⟩, by simp, h⟩)
       · cases hl
     · intro ids h
       have := ((c.emit (.sync "w" f.id false)).finishBatch_pc b t false).2.2 ids h
@@ -760,13 +765,13 @@ theorem WCtx.step_removal (c : WCtx) (out : Outcome) (hw : c.w.WF) : RemovalStep
   · intro b t f rest hpc hf ho _
     constructor
     · rcases (c.synced f.id).finishBatch_postponed b t true with
-        h | ⟨ids, hr, hl, _⟩ | ⟨ids, hr, _, h1, h2⟩
+        h | ⟨hl, _⟩ | ⟨_, h1, h2⟩
       · exact .inl h
       · cases hl
-      · exact .inr (.inr ⟨ids, .inr ⟨b, .inr (by rw [hpc, hr])⟩, h1, h2⟩)
+      · exact .inr (.inr ⟨tailIds t, .inr ⟨b, t, .inr hpc, rfl⟩, h1, h2⟩)
     · intro ids h
-      obtain ⟨_, _, ids0, h3, h4⟩ := ((c.synced f.id).finishBatch_pc b t true).2.2 ids h
-      exact .inr (.inr ⟨b, ids0, by rw [hpc, h3], ho, h4⟩)
+      obtain ⟨_, _, h4⟩ := ((c.synced f.id).finishBatch_pc b t true).2.2 ids h
+      exact .inr (.inr ⟨b, t, hpc, ho, h4⟩)
   · intro hpc _; exact .of_isRecv (by simp) c.toRecv_pc.1
   · intro i rest hpc _ _; exact .of_frame (by simp) (by simp)
   · intro i hpc _ _; exact .of_isRecv (by simp) (c.unlinked i).toRecv_pc.1
